@@ -85,3 +85,26 @@ Lemma retrain_current_data_l (sc : scorer) (fb : option scorer) pre ds qs i supp
 Proof.
   intro H. unfold rec_after, pred_after. rewrite (after_train pre ds qs H). repeat split.
 Qed.
+
+(* ---- several objects in one process: only an object's own train() calls count ---- *)
+Lemma own_app k w w' : own k (w ++ w') = own k w ++ own k w'.
+Proof. unfold own. rewrite filter_app, map_app. reflexivity. Qed.
+Lemma own_asks k post : existsb (trains k) post = false -> forallb is_ask (own k post) = true.
+Proof.
+  induction post as [|[j e] post IH]; intro H; [reflexivity|].
+  simpl in H. apply orb_false_iff in H. destruct H as [He Hp]. unfold own. simpl.
+  unfold trains in He. simpl in He. destruct (Nat.eqb j k); simpl in *.
+  - destruct (is_ask e); [|discriminate]. simpl. apply IH. exact Hp.
+  - apply IH. exact Hp.
+Qed.
+Lemma objects_independent_l (sc : scorer) (fb : option scorer) k pre ds post i supplied config_n run_n :
+  existsb (trains k) post = false ->
+  after_in k (pre ++ (k, Train ds) :: post) = Some ds /\
+  rec_in sc k (pre ++ (k, Train ds) :: post) i supplied config_n run_n = Some (rec_pipeline sc ds i supplied config_n run_n) /\
+  pred_in sc fb k (pre ++ (k, Train ds) :: post) i supplied = Some (pred_pipeline sc fb ds i supplied).
+Proof.
+  intro H. unfold after_in, rec_in, pred_in. rewrite own_app.
+  assert (E : own k ((k, Train ds) :: post) = Train ds :: own k post).
+  { unfold own. simpl. rewrite Nat.eqb_refl. reflexivity. }
+  rewrite E. apply retrain_current_data_l. apply own_asks. exact H.
+Qed.
